@@ -335,6 +335,8 @@ def c05(ctx):
     multi = [{"mode": "multi", "W": w, "N": n, "pipes": k, "nested": nested, "seed": 40 + w}
              for w in ((1, 3) if q else (1, 2, 3, 4)) for n in ((7,) if q else (1, 7, 30)) for k in ((2,) if q else (2, 3))
              for nested in (False, True)]
+    # more worker threads alive at once than the machine has cores (a shared fixed-size thread pool would starve the later pipes)
+    multi += [{"mode": "multi", "W": 8, "N": 9, "pipes": 3, "nested": nested, "seed": 77} for nested in (False, True)]
     pipe_judge(ctx, multi, "B-multi", C05_CLAUSES, mech=False)
 
 
@@ -523,8 +525,11 @@ def c09(ctx):
     # already found the upstream exhausted (last items, fewer items than workers), or an earlier pipe of the same process has
     # run to completion (prior = 1): the hook must still end the process
     # prior = 2: between the earlier pipe and this one train_bpe has installed its own panic hook
-    combos += [(4, 2, 0, 60, 0), (3, 6, 4, 60, 0), (4, 9, 7, 60, 0), (2, 6, 3, 0, 1), (4, 3, 1, 40, 1), (2, 6, 3, 0, 2), (1, 4, 1, 0, 2)] if q else \
-        [(w, n, f, d, pr) for w in (1, 2, 3, 4, 8) for n in (2, 5, 9) for f in (0, n - 2, n - 1) for d in (0, 60) for pr in (0, 1, 2)]
+    # prior = 3: the failing pipe is built first and partly consumed, then a one-thread pipe is built and consumed (it re-installs
+    # the process-wide hook), then the first pipe is continued up to its failing item
+    combos += [(4, 2, 0, 60, 0), (3, 6, 4, 60, 0), (4, 9, 7, 60, 0), (2, 6, 3, 0, 1), (4, 3, 1, 40, 1), (2, 6, 3, 0, 2), (1, 4, 1, 0, 2), (4, 30, 22, 0, 3), (3, 30, 25, 30, 3)] if q else \
+        [(w, n, f, d, pr) for w in (1, 2, 3, 4, 8) for n in (2, 5, 9) for f in (0, n - 2, n - 1) for d in (0, 60) for pr in (0, 1, 2)] + \
+        [(w, 40, f, d, 3) for w in (2, 3, 4, 8) for f in (30, 39) for d in (0, 30)]
     child_panic_runs(ctx, combos)
 
 
